@@ -124,6 +124,27 @@ def run(ctx: Ctx) -> int:
     ok = len(aps) >= 2 and any("cfg_obj" in ast.unparse(c.args[0]) for c in aps if c.args)
     ctx.oblige("C10.b", ok, aps[0] if aps else po, "parse_object runs the same per-key checker over the given object (a parse result is re-checked, not trusted)" if ok else "parse_object no longer applies actions to the given object", fn=po)
 
+    # text that loads to text stays as it was written: replacing "'1.10'" by "1.10" makes the next pass read 1.1
+    pvc = ctx.func("_util:parse_value_or_config")
+    vp = pvc.args.args[0].arg
+    lv = [s for s in walk_local(pvc) if isinstance(s, ast.Assign) and isinstance(s.value, ast.Call) and call_leaf(s.value) == "load_value" and isinstance(s.targets[0], ast.Name) and s.value.args and isinstance(s.value.args[0], ast.Name) and s.value.args[0].id == vp and s.targets[0].id != vp]
+    ctx.need(len(lv) == 1, "parse_value_or_config: <parsed> = load_value(<value>, ...)")
+    pv = lv[0].targets[0].id
+    repl = [s for s in walk_local(pvc) if isinstance(s, ast.Assign) and isinstance(s.value, ast.Name) and s.value.id == pv and any(isinstance(t, ast.Name) and t.id == vp for t in s.targets)]
+    ok = bool(repl)
+    for s in repl:
+        good = False
+        for t, pol in guard_chain(s, stop=pvc):
+            inner, pos = strip_not(t)
+            eff = pol == pos
+            txt = ast.unparse(inner).replace(" ", "")
+            if txt in (f"type({pv})isnotstr", f"type({pv})!=str") and eff:
+                good = True
+            if txt in (f"type({pv})isstr", f"type({pv})==str", f"isinstance({pv},str)") and not eff:
+                good = True
+        ok = ok and good
+    ctx.oblige("C10.a", ok, repl[0] if repl else pvc, "a text value is replaced by its loaded form only when that form is not text" if ok else "a text value can be replaced by a loaded form that is itself text (quotes stripped): on the next pass the unquoted text is read as a number / bool / null, so parse(result) != result", fn=pvc, construct="text stays text")
+
     # ---------------- C10.c ---------------------------------------------------
     # metadata pairing: a value's "__path__" entry that a checker pops before converting/validating it is put
     # back on every normal path on which it was present (otherwise parse(result) != result for results with_meta)
